@@ -294,8 +294,10 @@ where
 
         // if element is Specific Character Set,
         // update the text codec
+        // (when multi-valued, the first value names the codec,
+        // as in `encode_texts_element` and when decoding)
         if de.tag == Tag(0x0008, 0x0005) {
-            self.try_new_codec(text);
+            self.try_new_codec(text.split('\\').next().unwrap_or(text));
         }
 
         Ok(())
